@@ -152,11 +152,11 @@ def rule_d(ck, F):
         if rle[0][0] in body and (head is None or len(body) < len(loop[head])): head = h
     inl = [(d[1], N.n(T.ex_rv(d[3]['rv']))) for d in defs if head is not None and d[1] in loop[head]]
     dq = ('f', 'unwrap_or', ('fld', dmb[1], dmb[2] + (fidx['d_quantizer'],)), ('c', 0))
-    upd = ('f', 'clamp', mk_add([('v', 'in_force_quantizer'), dq]), ('c', 1), ('c', 31))
+    upd = ('f', 'clamp', mk_add([('f', 'as_i8', ('v', 'in_force_quantizer')), dq]), ('c', 1), ('c', 31))      # the final `as u8` of a value clamped to 1..31 is value preserving and normalised away
     good = [bb for bb, v in inl if v == upd]
     other = [(bb, show(v)) for bb, v in inl if v != upd and show(v) != show(('fld', ('v', 'quantizer'), ())) and not show(v).startswith('decode_gob')]
     if len(good) == 1 and all(g.dominates(good[0], rb) for rb, _, _ in rle) and all(g.dominates(good[0], x[0]) for x in db):
-        ck.ok('H', 'in_force_quantizer := clamp(in_force_quantizer + d_quantizer.unwrap_or(0), 1, 31) dominates the six decode_block / inverse_rle pairs', where_of(b, good[0]))
+        ck.ok('H', 'in_force_quantizer := clamp(in_force_quantizer as i8 + d_quantizer.unwrap_or(0), 1, 31) as u8 dominates the six decode_block / inverse_rle pairs', where_of(b, good[0]))
     else:
         ck.violation('H', 'H : decode_next_picture : quantizer update', where_of(b), 'in-loop definitions of in_force_quantizer: %s; expected exactly one %s before the blocks' % ([(bb, show(v)) for bb, v in inl], show(upd)))
     init = [(d[1], N.n(T.ex_rv(d[3]['rv']))) for d in defs if head is None or d[1] not in loop[head]]
